@@ -163,7 +163,7 @@ namespace GeographicLib {
   }
 
   int Utility::lookup(const char* s, char c) {
-    const char* p = strchr(s, toupper(c));
+    const char* p = c ? strchr(s, toupper(c)) : NULL;
     return p != NULL ? int(p - s) : -1;
   }
 
